@@ -5,8 +5,8 @@ import (
 	"fmt"
 	"time"
 
-	"github.com/aperturerobotics/util/keyed"
 	ubackoff "github.com/aperturerobotics/util/backoff"
+	"github.com/aperturerobotics/util/keyed"
 	cbackoff "github.com/cenkalti/backoff/v4"
 	"verifsim/harness/core"
 	"verifsim/simrt"
@@ -43,12 +43,33 @@ type keyedAPI interface {
 	ResetAllRoutines(conds ...func(string, int) bool) (int, int)
 }
 
+// runRef is one reference taken by AddKeyRef.
+type runRef struct {
+	ref      *keyed.KeyedRef[string, int]
+	key      string
+	inv      int  // stamp taken before AddKeyRef was invoked
+	released bool // Release was invoked on it (at least once)
+}
+
+type ival struct{ inv, ret int }
+
+// removeKey is RemoveKey with its interval recorded.
+func (w *runWorld) removeKey(key string) bool {
+	r := &ival{inv: w.c.Tick()}
+	w.removes[key] = append(w.removes[key], r)
+	existed := w.k.RemoveKey(key)
+	r.ret = w.c.Tick()
+	return existed
+}
+
 type runWorld struct {
 	c       *core.Ctx
 	k       keyedAPI
 	plain   *keyed.Keyed[string, int]
 	rcv     *keyed.KeyedRefCount[string, int]
-	refs    []*keyed.KeyedRef[string, int]
+	refs    []*runRef
+	nkeys   int
+	removes map[string][]*ival // KeyedRefCount.RemoveKey calls per key (they drop every reference)
 	delay   int64
 	incOf   map[string]*incarnation // current incarnation per key (updated inside constructor calls, i.e. in lock order)
 	nInc    int
@@ -146,12 +167,12 @@ func (w *runWorld) markDead(inc *incarnation, why string) {
 	}
 }
 
-func (w *runWorld) keyDriver(id, nops int) {
+func (w *runWorld) keyStep(id, i int) {
 	c := w.c
 	me := c.S.Self()
-	for i := 0; i < nops && !c.Failed(); i++ {
+	{
 		w.maybeGate()
-		key := keysU[c.S.Plan(len(keysU))]
+		key := keysU[c.S.Plan(w.nkeys)]
 		k := c.S.Plan(20)
 		if i == 0 && c.S.PlanP(700) {
 			k = 0 // most scripts start by adding a key
@@ -163,8 +184,9 @@ func (w *runWorld) keyDriver(id, nops int) {
 		case k < 5:
 			if w.rcv != nil {
 				c.Descf("driver %d: AddKeyRef(%q)", id, key)
-				ref, _, _ := w.rcv.AddKeyRef(key)
-				w.refs = append(w.refs, ref)
+				rr := &runRef{key: key, inv: c.Tick()}
+				rr.ref, _, _ = w.rcv.AddKeyRef(key)
+				w.refs = append(w.refs, rr)
 				c.Pub() // references are released by whichever driver picks them
 				break
 			}
@@ -173,7 +195,7 @@ func (w *runWorld) keyDriver(id, nops int) {
 		case k < 8:
 			before := w.incOf[key]
 			c.Descf("driver %d: RemoveKey(%q)", id, key)
-			existed := w.k.RemoveKey(key)
+			existed := w.removeKey(key)
 			if existed && w.delay == 0 && before != nil && w.incOf[key] == before {
 				c.S.Count("probe:removed")
 				w.markDead(before, "RemoveKey returned true")
@@ -190,7 +212,7 @@ func (w *runWorld) keyDriver(id, nops int) {
 					w.k.ResetRoutine(key)
 					w.inReset[me] = false
 				default:
-					w.k.RemoveKey(key)
+					w.removeKey(key)
 				}
 			}
 		case k < 10 && w.rcv != nil:
@@ -201,13 +223,14 @@ func (w *runWorld) keyDriver(id, nops int) {
 			c.Sub()
 			i := c.S.Plan(len(w.refs))
 			ref := w.refs[i]
+			ref.released = true
 			if !c.S.FaultP(300) {
 				w.refs = append(w.refs[:i], w.refs[i+1:]...)
 			} else {
 				c.S.Count("fault:double-release")
 			}
 			c.Descf("driver %d: KeyedRef.Release", id)
-			ref.Release()
+			ref.ref.Release()
 		case k < 10:
 			n := c.S.Plan(3)
 			var keys []string
@@ -255,9 +278,9 @@ func (w *runWorld) keyDriver(id, nops int) {
 	}
 }
 
-func (w *runWorld) ctxDriver(nops int) {
+func (w *runWorld) ctxStep(i int) {
 	c := w.c
-	for i := 0; i < nops && !c.Failed(); i++ {
+	{
 		w.maybeGate()
 		op := c.S.Plan(6)
 		if i == 0 && c.S.PlanP(800) {
@@ -323,6 +346,24 @@ func (w *runWorld) checkQuiescent() {
 			}
 		}
 	}
+	// C06: a reference-counted key is present while an unreleased reference exists
+	// (RemoveKey drops every reference: a reference is void if a RemoveKey of its
+	// key was in flight or invoked after the reference was requested)
+	for _, r := range w.refs {
+		if r.released || r.ref == nil || present[r.key] {
+			continue
+		}
+		void := false
+		for _, rm := range w.removes[r.key] {
+			if rm.ret == 0 || rm.ret > r.inv {
+				void = true
+			}
+		}
+		if !void {
+			c.Fail("C06.R1.referenced-key-absent", "at a quiescent point key %q is not in the key set although a reference to it has not been released and no RemoveKey(%q) was called since it was taken", r.key, r.key)
+			return
+		}
+	}
 	c.Sub()
 	for _, in := range w.insts {
 		if in.returned == 0 && in.ctx.Err() == nil {
@@ -340,7 +381,7 @@ func (w *runWorld) checkQuiescent() {
 }
 
 func runRun(c *core.Ctx) {
-	w := &runWorld{c: c, incOf: map[string]*incarnation{}, inReset: map[*simrt.Task]bool{}, ctxs: map[int]context.Context{}}
+	w := &runWorld{c: c, removes: map[string][]*ival{}, incOf: map[string]*incarnation{}, inReset: map[*simrt.Task]bool{}, ctxs: map[int]context.Context{}}
 	c.PanicOracle = "C07.P.panic"
 	var opts []keyed.Option[string, int]
 	if c.S.PlanP(400) {
@@ -378,11 +419,18 @@ func runRun(c *core.Ctx) {
 	}
 	var tasks []*simrt.Task
 	nd := c.IntRange(1, 2)
+	w.nkeys = len(keysU)
+	if w.rcv != nil && c.S.PlanP(500) {
+		// reference counting on one hot key with up to three drivers: releases,
+		// removals and new references of the same key overlap
+		w.nkeys = 1
+		nd = c.IntRange(2, 3)
+	}
 	n0 := c.IntRange(1, 3)
-	tasks = append(tasks, c.Actor("ctx-driver", func() { w.ctxDriver(n0) }))
+	tasks = append(tasks, c.RelayActor("ctx-driver", n0, w.ctxStep)...)
 	for i := 0; i < nd; i++ {
 		id, n := i, c.IntRange(1, maxops)
-		tasks = append(tasks, c.Actor("key-driver", func() { w.keyDriver(id, n) }))
+		tasks = append(tasks, c.RelayActor("key-driver", n, func(j int) { w.keyStep(id, j) })...)
 	}
 	for round := 0; round < 400; round++ {
 		c.S.Quiesce()
@@ -458,7 +506,7 @@ func init() {
 	})
 	core.Register(&core.Scenario{
 		Name:  "keyedrun",
-		Props: []string{"C07"},
+		Props: []string{"C06", "C07"},
 		Run:   runRun,
 		NonTrivial: func(n map[string]int) bool {
 			return n["probe:instance-cancelled"]+n["probe:instance-deaf"] > 0 && n["probe:restart-true"]+n["probe:reset-true"]+n["probe:removed"] > 0
